@@ -28,6 +28,8 @@ EXPLANATION = (
     "shutdown to a fixpoint; after stop/abort no created worker is un-joined, "
     "camera and storage are stopped, the state is Armed, and a successful start "
     "begins with no stale stop request and three workers.")
+EXPLANATION += (' R-ABORT-SEQ also orders the stop request before the one-shot trigger (through helpers). R-THREAD-EXIT: no device call after is_running = 0.')
+
 
 
 def run(ctx, res):
